@@ -4,6 +4,7 @@ import (
 	"fmt"
 	"go/token"
 	"go/types"
+	"sort"
 
 	"golang.org/x/tools/go/ssa"
 )
@@ -569,6 +570,10 @@ func runC16(c *Ctx) {
 	c.hookNeverBlocksRule("R7")
 	r.Rule("R8", "the other handlers for the event are still delivered: in the function that fans a line out, every path from entry dispatches on the internal, the background and the foreground set - no result of one set's handlers (a count of recovered panics, say) guards the dispatch on another")
 	c.fanOutCompleteRule("R8")
+	r.Rule("R9", "a recovered panic in a built-in handler does not swallow the event that handler owes: wherever a handler of the internal or state table dispatches an event (CONNECTED from the 001 handler), the dispatch is deferred before any instruction of the handler that may panic, or every potentially panicking instruction of the handler's body that can run before the call is proved safe for every line")
+	c.owedEventsRule("R9")
+	r.Rule("R10", "the recovery hook the application configures is the hook that runs: the Conn keeps the caller's own Config object (shared with C10.R6) - a client working on a private copy never sees a Recover installed through the application's *Config after Client() returned")
+	c.configIdentityRule("R10")
 	c.handlerFrameRule("R1")
 	// R2
 	n := 0
@@ -798,4 +803,54 @@ func (c *Ctx) fanOutCompleteRule(rule string) {
 		}
 	}
 	r.Floor(rule, "set dispatches required on every path of the fan-out function", n, 3)
+}
+
+// owedEventsRule: C16.R9. An event a built-in handler owes (CONNECTED from
+// the 001 handler) is delivered even when that handler panics and the panic
+// is recovered: the dispatch is deferred before anything in the handler can
+// panic, or - when it is a plain call - every potentially panicking
+// instruction of the handler's own body that can run before it is proved
+// safe for every line.
+func (c *Ctx) owedEventsRule(rule string) {
+	r, a := c.R, c.A
+	var hs []*ssa.Function
+	seen := map[*ssa.Function]bool{}
+	for _, tbl := range []map[string]*ssa.Function{a.IntTable, a.StTable} {
+		var keys []string
+		for k := range tbl {
+			keys = append(keys, k)
+		}
+		sort.Strings(keys)
+		for _, k := range keys {
+			if h := tbl[k]; !seen[h] {
+				seen[h] = true
+				hs = append(hs, h)
+			}
+		}
+	}
+	p := c.NewProver()
+	n := 0
+	for _, h := range hs {
+		for _, cs := range CallSites(h) {
+			if cs.Common().StaticCallee() != a.ConnDispatch {
+				continue
+			}
+			if _, isGo := cs.(*ssa.Go); isGo {
+				continue
+			}
+			n++
+			before := ReachFromEntry(h, func(in ssa.Instruction) bool { return in == ssa.Instruction(cs) })
+			bad := ""
+			for _, ob := range c.panicObligations(h) {
+				if !before[ob.In] || ob.In == ssa.Instruction(cs) {
+					continue
+				}
+				if ok, why := c.discharge(p, ob); !ok {
+					bad = ob.Kind + " at " + c.InstrPos(ob.In) + " can panic before the event is " + map[bool]string{true: "registered for delivery", false: "dispatched"}[kindName(cs) == "defer"] + ": " + why
+				}
+			}
+			r.Add(rule, fmt.Sprintf("owed-event:%s#%d", c.FuncKey(h), n), c.InstrPos(cs), c.FuncKey(h), "the event a built-in handler dispatches is delivered even if the handler panics", bad == "", bad)
+		}
+	}
+	r.Floor(rule, "events dispatched by built-in handlers", n, 1)
 }
